@@ -27,6 +27,10 @@ CHECKS = {
    technique="Coq proof (induction on the retry budget over the slot model; case analysis of poll) + model witnesses (vm_compute) for the refuted safety clause + differential histories under a virtual clock with operations executed inside the TX / RX / poll / drop windows via cfg yield points",
    text="Proved: c06_count (R retries, no response => exactly R+1 byte-identical transmissions, PDU timeout, slot free), c06_forever (any budget outlasting the observation: k deadlines => k identical transmissions, still pending), c06_done_wins (a received response beats the deadline), c06_never_success / c06_done_needs_response (no success without an accepted response). REFUTED with machine-checked witnesses: the safety clause (c06_safe_refuted_tx_window, c06_safe_refuted_rx_window) - reproduced on the real code and carried as known findings; any breach outside those two window classes is still reported. Tied by 900/9000 cases: count scenarios (retries 0..3, response lost always or after transmission k, late poll) with the oracle evaluated on the implementation, and random histories with drops/expiries/allocations executed inside every window, all compared step by step with the model.",
    note="PARTIAL: 'safe outside the windows' is validated by the correspondence runs (every oracle failure seen lies in a window class) and by the C03 ownership theorem for histories with atomic TX, not yet by a theorem over the split-TX alphabet. The count clause assumes TX services every sendable frame before the next deadline (as the property states). Virtual time only; the embassy Timer fires from its second poll on (modelled in the harness)."),
+ "C02": dict(
+   technique="Coq proof (ownership invariant over the window-granular alphabet: handle typestate x TX claim x RX position <-> slot status, preserved by all 15 step kinds; lifecycle edges by case analysis) + differential histories with operations executed inside the TX/RX/poll/drop windows",
+   text="Theorems over every history of the window-granular alphabet (application ops on held handles, TX claim/send outcome, RX claim/copy/done, poll and response-drop split at their yield points), with no deadline acting and no abandonment while TX or RX is inside that buffer: c02_mutex (at most one of builder/TX/RX/reader inside each buffer and the status names it), c02_alloc_only_free (a buffer is handed out only when nobody is inside), c02_lifecycle (every status change is an edge of the documented order plus the pending-future release edges). Tied by 600/6000 histories on the real slots with other operations executed from inside the yield-point callbacks; after every step the implementation's statuses, handles, TX claim and RX position are checked by an oracle and the whole trace is compared with the model.",
+   note="Granularity: one step per API call or per half of a call that contains a yield point; interleavings finer than that (inside alloc_frame, push_pdu, mark_sendable) and weak-memory effects are not covered. The reader's ReceivedPdu view outliving its frame (first_pdu) is C01's finding, not part of this statement's model (a view is not a handle here)."),
 }
 ORDER = [f"C{i:02d}" for i in range(1, 21)]
 
